@@ -18,68 +18,12 @@ thread whose Acquire is disabled in the spec is really *blocked* on the lock (De
 code -> spec: record() runs a seeded random line-level schedule and returns the event list for
 Trace_Timestamps.tla.
 """
-import sys
-
-import greenlet
-
 from harness.pyenv import repo_import
 from harness.sim.detsched import DetSched, DLock, Blocked
 
 
 class Divergence(Exception):
     pass
-
-
-class LineSched(DetSched):
-    """DetSched whose line mode keeps sys.settrace installed for its whole life.
-
-    On CPython 3.12 sys.settrace(None) removes the line instrumentation from every code object and
-    sys.settrace(f) re-instruments a code object only when a *new* frame of it starts; a frame that was
-    suspended in between (a logical thread parked at a yield point) then runs to its end without line events.
-    DetSched.step / yield_point toggle the trace function around every switch, which silently merges the
-    remaining lines of the function into one step.  Here the trace function is installed once
-    (start_tracing) and removed once (stop_tracing), and yields made from inside the trace callback go
-    through sys.call_tracing (see yield_point)."""
-
-    def start_tracing(self):
-        self._saved_trace = sys.gettrace()
-        sys.settrace(self._tracer)
-
-    def stop_tracing(self):
-        sys.settrace(self._saved_trace)
-
-    def step(self, name):
-        t = self.threads[name]
-        if t.done:
-            raise Blocked("thread %s already finished" % name)
-        if t.is_blocked():
-            raise Blocked("thread %s is blocked on %s" % (name, t.waiting_for))
-        self.active = t
-        try:
-            label = t.g.switch()
-        finally:
-            self.active = None
-        if t.g.dead:
-            t.done = True
-            label = "end"
-            if t.exc is not None:
-                exc, t.exc = t.exc, None
-                raise exc
-        t.at = label
-        self.trace.append((name, label))
-        return label
-
-    def yield_point(self, label):
-        g = greenlet.getcurrent()
-        if g is self.main or self.active is None or self.active.g is not g:
-            return
-        if self.active.atomic > 0:
-            return
-        # A line yield happens inside the trace callback, where the interpreter has tracing switched off
-        # (tstate->tracing > 0) and greenlet does not save that flag: every other logical thread would run
-        # untraced until this callback returns.  sys.call_tracing() runs the switch with tracing re-enabled
-        # and restores the flag when this thread is resumed.
-        sys.call_tracing(self.main.switch, (label,))
 
 
 class LoggingLock(DLock):
@@ -160,7 +104,7 @@ class TsHarness:
                 h.log("set", v)
             last = property(_get, _set)
 
-        self.sched = LineSched()
+        self.sched = DetSched()
         self.gen = Probe()
         self.gen.lock = NullLock() if null_lock else LoggingLock("ts", self)
         self.clock = Clock(self)
@@ -171,12 +115,10 @@ class TsHarness:
         self.sched.trace_lines(base.__call__, base._next_timestamp)
         for t in range(1, n + 1):
             self.sched.spawn(str(t), self._body, t)
-        self.sched.start_tracing()
 
     def close(self):
-        self.sched.stop_tracing()
+        self.sched.close()
         self.ts.time = self.saved_time
-        DetSched.current = None
 
     def _body(self, t):
         for _ in range(self.k):
